@@ -233,7 +233,7 @@ const (
 
 var targetNames = []string{"any", "map[string]any", "[]any", "RawMessage", "string", "float64", "int", "struct", "map[string]int", "[]int", "[]*Flaky", "map[string]*Flaky", "map[string]struct", "*struct", "map[string]FlakyText", "static type", "map[int]string", "[3]any", "[]byte", "uint64", "**int", "RedirectMarshaler", "TrustMarshaler"}
 
-var tagNames = []string{"a", "b", "c", "foo", "A", "Foo", "", "-", "bar", "a/b", "é", "a_b", "created_at", "kind", "sk8", "user_id", "disk-size", "task2"}
+var tagNames = []string{"a", "b", "c", "foo", "A", "Foo", "", "-", "bar", "a/b", "é", "a_b", "created_at", "kind", "sk8", "user_id", "disk-size", "task2", "käse", "Kévin", "skål", "élèves"}
 
 var structCache = map[uint64]reflect.Type{}
 
